@@ -141,7 +141,7 @@ func streamPreds(seed uint64, n int, driver string, tier string) (*Summary, erro
 		t.Not = true
 		strTests = append(strTests, t)
 	}
-	for _, set := range [][]string{{"a"}, {"", "A"}, {"é", "0", "zz"}} {
+	for _, set := range [][]string{{}, {"a"}, {"", "A"}, {"é", "0", "zz"}} { // (the empty enum admits nothing)
 		t := mk("oneof")
 		for _, s := range set {
 			t.Args = append(t.Args, eng.D{K: "s", S: s})
@@ -237,6 +237,11 @@ func streamPreds(seed uint64, n int, driver string, tier string) (*Summary, erro
 		t.Args = []eng.D{{K: "i", NK: kind, I: 1}, {K: "i", NK: kind, I: -3}}
 		for _, v := range []int64{1, -3, 0, 2} {
 			cases = append(cases, pc{kind, "", t, eng.D{K: "i", NK: kind, I: v}})
+		}
+		te := mk("oneof") // the empty enum admits nothing
+		te.Args = []eng.D{}
+		for _, v := range []int64{1, 0} {
+			cases = append(cases, pc{kind, "", te, eng.D{K: "i", NK: kind, I: v}})
 		}
 	}
 	fl := []float64{0, math.Copysign(0, -1), 1, -1, 1.5, math.Nextafter(1.5, 2), math.Nextafter(1.5, 1), math.NaN(), math.Inf(1), math.Inf(-1), 1e300, 5e-324}
